@@ -126,7 +126,7 @@ func (p *protoSvc) connect() (net.Conn, error) {
 		return p.fake.Connect(), nil
 	}
 	var lastErr error
-	for i := 0; i < 200; i++ {
+	for dl := time.Now().Add(protoBound); time.Now().Before(dl); {
 		c, err := net.Dial("unix", p.addr)
 		if err == nil {
 			return c, nil
